@@ -309,6 +309,10 @@ class ConcHarness:
                         async with pool.stream("GET", url, extensions=dict(ext)) as r:
                             pass
                         return (r.status, None)
+                    if kind == "closepool":
+                        # the pool is closed while it is in use (it stays usable afterwards: later requests open new connections)
+                        await pool.aclose()
+                        return (200, None)
                     raise ValueError(kind)
                 return prog
             if "w" in opts:
@@ -665,6 +669,9 @@ def scenarios(pid, tier):
                 out.append(S(ct, ["hold:a", "req:a:late"], max_connections=1, h2script={"goaway": [1]}, early=False))
                 if not quick:
                     out.append(S(ct, ["req:a:w", "hold:a", "req:a:late", "req:b:late"], max_connections=1, h2script={"goaway": [3]}, early=False))
+        if pid == "C04":
+            # the pool is closed while an idle connection is being closed and further requests arrive: the limit holds throughout
+            out.append(S("h11", ["req:a:w", "closepool:a", "req:b:late", "req:c:late"], max_connections=1, probe=False))
         if pid in ("C04", "C07"):
             out.append(S("socks-h2", ["req:a", "req:a"], max_connections=1, early=False))
             out.append(S("socks-h2", ["req:a", "req:a", "req:b"], max_connections=1, early=False))
@@ -746,6 +753,14 @@ def scenarios(pid, tier):
             # the same with a server that answers only when the explorer says so (an auto-answering server has closed a stream
             # by its own books before the next HEADERS of the same write is parsed)
             out.append(S(ct, ["req:a", "req:a:late", "req:a:late"], max_connections=1, early=False, h2script={"frag": 1}))
+    if pid == "C12":
+        # multiplexing inside a CONNECT tunnel / behind SOCKS (the wrapper connections must not serialise the streams)
+        for ct in (["tunnel-h2"] if quick else ["tunnel-h2", "socks-h2"]):
+            out.append(S(ct, ["req:a:w", "req:a", "req:a"], max_connections=1, h2script={"frag": 1}, early=False))
+        # a stream abandoned by a cancelled caller whose trace callback suspends must give its slot back (limit 1: the next one needs it)
+        for ct in (["h2pk"] if quick else ["h2pk", "h2alpn"]):
+            out.append(S(ct, ["req:a:w", "req:a:v", "req:a"], max_connections=1, cancels=1, styles=["scope"], trace=True,
+                         h2cfg={"max_streams": 1}, early=False))
     if pid == "C03":
         # transparent re-sends: a stream refused by GOAWAY is sent again on another connection; both transmissions are decoded by the peer
         for ct in (["h2pk"] if quick else ["h2pk", "h2alpn"]):
